@@ -12,8 +12,12 @@ RULE = ("each case is ONE line: a structured description of 1..4 ELF objects (cl
         "program headers with the file bytes they cover; .symtab and .dynsym entries; .dynamic entries; DT_NEEDED names; "
         "REL/RELA/JMPREL tables) followed by queries. The harness's ELF writer turns the description into real files under "
         "/verif/work/c19 (ELF32/64, little/big endian, EM_386/X86_64/MIPS/PPC/AARCH64; 1..4 PT_LOAD segments, filesz <= memsz, "
-        "adjacent / gapped / page-aligned, any flag combination incl. OS bits; PT_GNU_STACK/TLS/RELRO/SHLIB/EH_FRAME headers mixed "
-        "in; symbols of every type and binding, undefined / ABS / COMMON, duplicates, at the entry; optional dynamic segment with "
+        "adjacent / gapped / page-aligned, any flag combination incl. OS bits; p_paddr drawn independently of p_vaddr (equal in "
+        "about 1/3 of the headers, otherwise a page-aligned address far from every virtual range), p_align varying (0, 1, 4.., "
+        "0x1000, 0x10000), p_offset congruent to p_vaddr mod page or not; section headers covering only a part of their segment "
+        "(sh_addr != p_vaddr); non-loadable headers interleaved that must not be mapped: PT_NOTE and PT_INTERP with file bytes "
+        "and virtual addresses of their own, PT_GNU_STACK with an address and a size, PT_TLS with memsz > filesz, RELRO, SHLIB, "
+        "EH_FRAME, PT_DYNAMIC; symbols of every type and binding, undefined / ABS / COMMON, duplicates, at the entry; optional dynamic segment with "
         ".hash/.dynsym/.dynstr/.rel(a).dyn/.rel(a).plt/.dynamic/.got), checks that goblin's view of the file equals the "
         "description, loads it with falcon::loader::Elf (from_file / from_file_with_base_address / new) at bases 0, 0x1000, "
         "0x40000000 and 2^40 (64-bit) and prints memory() as maximal runs (address, length, permissions, bytes or FNV hash), "
@@ -112,7 +116,7 @@ def nontrivial(c):
             entry = t[6]
         elif t[0] == "ph" and t[1] == "1":
             loads += 1
-            bss = bss or int(t[6]) > int(t[5])
+            bss = bss or int(t[7]) > int(t[6])        # ph type flags off vaddr paddr filesz memsz align bytes
         elif t[0] in ("sym", "dsym"):
             if int(t[4]) % 16 == 2 and t[2] != "0" and t[6] != "0" and t[2] != entry:
                 func = True
